@@ -257,6 +257,11 @@ func checkC05(c *hx.Checker) {
 		{dt: ref.F32, x: []int{1, 2, 9, 20}, w: []int{3, 2, 3, 7}, bias: false, a: ref.ConvAttrs{AutoPad: "SAME_LOWER", Strides: []int{2, 2}}, route: "op"},
 		{dt: ref.F32, x: []int{5, 1, 7, 7}, w: []int{6, 1, 3, 3}, bias: true, a: ref.ConvAttrs{AutoPad: "SAME_UPPER"}, route: "op"},
 		{dt: ref.F32, x: []int{3, 4, 31}, w: []int{5, 4, 6}, bias: true, a: ref.ConvAttrs{Strides: []int{3}, Dilations: []int{2}, Pads: []int{4, 5}}, route: "op"},
+		// above 4096 / 32768 / 65536 elements with odd extents (block-splitting kernels)
+		{dt: ref.F32, x: []int{1, 3, 37, 41}, w: []int{5, 3, 3, 3}, bias: true, a: ref.ConvAttrs{Pads: []int{1, 1, 1, 1}}, route: "op"},
+		{dt: ref.F32, x: []int{2, 2, 131, 127}, w: []int{3, 2, 3, 2}, bias: true, a: ref.ConvAttrs{Strides: []int{2, 1}}, route: "op"},
+		{dt: ref.F32, x: []int{1, 1, 4099}, w: []int{3, 1, 5}, bias: false, a: ref.ConvAttrs{Dilations: []int{3}}, route: "op"},
+		{dt: ref.F32, x: []int{3, 5, 2203}, w: []int{7, 5, 2}, bias: true, a: ref.ConvAttrs{Strides: []int{2}, Pads: []int{1, 0}}, route: "model"},
 	} {
 		lg.extra = []string{"large"}
 		jobs = append(jobs, convJob(lg))
